@@ -485,19 +485,6 @@ def run_case(case, ctx):
     return Result(viols, nontrivial, classes)
 
 
-def budget_guard(ctx, strategy):
-    """Once the worker's wall budget is spent the runner skips every further case; do not pay for
-    generating them either (the placeholder never reaches run_case)."""
-
-    @st.composite
-    def guarded(draw):
-        if ctx.failure is None and ctx.over_budget():
-            return None
-        return draw(strategy)
-
-    return guarded()
-
-
 def run(ctx):
     try:
         import atheris  # noqa: F401
@@ -513,7 +500,7 @@ def run(ctx):
             from . import c14_booster
 
             c14_booster.run(ctx)
-    ctx.run_given(budget_guard(ctx, cases()), run_case, ctx.n(quick=3000, thorough=120000))
+    ctx.run_given(cases(), run_case, ctx.n(quick=3000, thorough=90000))
 
 
 def replay(case, ctx):
